@@ -73,7 +73,7 @@ def main():
             "guard": "verif",
             "enable": "go build -tags verif (harness module /verif/harness with replace github.com/jxsl13/backupfs => /repo)",
             "baseline_off_cmd": "cd /repo && GOFLAGS=-mod=mod GOPROXY=off GOSUMDB=off GOTOOLCHAIN=local go test -vet=off -count=1 ./...",
-            "source_commits": ["3ea2cf6"],
+            "source_commits": ["3ea2cf6", "5697ab1"],
             "add_only": True,
         },
         "engines": [
